@@ -46,8 +46,20 @@ func RunGrid(rep *explore.Report, cfgs []*Config, mk func() Visitor, o GridOpts)
 	if mode == "" {
 		mode = "clone"
 		if ok, why := CloneGuard(); !ok {
-			mode = "replay"
-			rep.Set("accelerator", "disabled: "+why+" (pure replay mode)")
+			// the game object holds state that LoadState may not rebuild: explore twice - genuinely
+			// uninterrupted objects (pure replay, time-boxed), and objects rebuilt from their state before
+			// every call, which is how the stateless table backend uses the engine
+			rep.Set("accelerator", "guard failed: "+why+"; explored in pure replay mode (10 min budget) and again with the game rebuilt from its state before every call")
+			o2 := o
+			o2.Mode = "replay"
+			if o2.Budget == 0 {
+				o2.Budget = 10 * time.Minute
+			}
+			RunGrid(rep, append([]*Config{}, cfgs...), mk, o2)
+			o3 := o
+			o3.Mode = "clone"
+			RunGrid(rep, cfgs, mk, o3)
+			return
 		} else {
 			rep.Set("accelerator", "clone mode: successor = deep copy of the live state (unserialised fields included) + NewGameFromState + one operation; guarded by a struct-shape check and cross-checked against genuine replays")
 		}
